@@ -107,8 +107,8 @@ def _qplan(what, quick, thorough):
 
 PLAN = {
     "C14": dict(_qplan("", "", ""),
-                rule="one evaluation = one execution of a dispatch I/O scenario (109 scenarios: stream reads of 3 bytes under every chunking x 4 lengths x 3 high-water marks, low water, bounded reads with intermediate deliveries, two reads, read-barrier-read, "
-                     "close(0)/close(STOP) in flight (also with bytes buffered below the low-water mark), read after close, a read ending in ECONNRESET on a socket, a 4104-byte fragmented write into a 4 KiB pipe with a draining peer (also interrupted by STOP while a chunk is partly written), random/stream channels on a regular file, interval delivery) in I/O-point mode: "
+                rule="one evaluation = one execution of a dispatch I/O scenario (111 scenarios: stream reads of 3 bytes under every chunking x 4 lengths x 3 high-water marks, low water, bounded reads with intermediate deliveries, two reads, read-barrier-read, "
+                     "close(0)/close(STOP) in flight (also with bytes buffered below the low-water mark), read after close, a read ending in ECONNRESET on a socket, a 4104-byte fragmented write into a 4 KiB pipe with a draining peer (also interrupted by STOP while a chunk is partly written), two channels on one descriptor with one of them stopped, random/stream channels on a regular file, interval delivery) in I/O-point mode: "
                      "the schedule branches only at the library's read/write/pread/pwrite on the watched descriptor, where the environment's next scripted move (peer write chunk / drain / close, the client's dispatch_io_close) may land first, at every quiescence where the order of those moves is a free choice, and one answer "
                      "per execution may become a 1-byte short transfer or EINTR; library-internal interleaving follows the default schedule",
                 bounds={"quick": "all placements with <=4 deviations per scenario (peer scripts have <=5 moves, so this is every placement of every move, plus <=1 injected answer)",
